@@ -52,7 +52,7 @@ def run(ctx):
     if runner is None:
         ctx.oblige("extracted parser/channel runner builds", False, "see notes")
     else:
-        cases = PC.build_cases(rng, 700 if thorough else 40, small_atoms=2 if thorough else 1)
+        cases = PC.build_cases(rng, 900 if thorough else 120, small_atoms=2 if thorough else 1)
         nover = 0
         nskip_hex = 0
         budget = 2.5e8 if thorough else 6e7     # ~1e7 units per second of model time
@@ -114,7 +114,7 @@ def run(ctx):
         nontrivial.add((c["kind"], c["mh"], c["mb"], c["recv"], len(c["prefix_paths"])))
         if bad:
             failures.append((c, res, bad))
-    ngen = 8000 if thorough else 350
+    ngen = 20000 if thorough else 2500
     for c in L.gen_generic(rng, ngen):
         res = L.drive(c["mh"], c["mb"], c["reads"])
         evaluations += 1
